@@ -288,4 +288,5 @@ var verifC05Shapes = [][]int{
 	4: {3, 3, 3, 3},       // four in the last bucket
 	5: {0, 1, 2, 3, 4, 5}, // one each in six buckets
 	6: {4, 4, 4, 4, 4, 4, 4, 5}, // 7 + 1
+	7: {2, 1, 2},          // 2 + 1, candidates for arbitrary put order
 }
